@@ -194,18 +194,40 @@ def run(ctx):
         ms = [norm(st.targets[0].slice) for st in ast.walk(func) if isinstance(st, ast.Assign) and isinstance(st.targets[0], ast.Subscript) and norm(st.targets[0].value) == "t2"]
         ctx.check(sorted(ms) == ["XH", "~XH"], "R2", mod, func, func.name, "t2 masked stores", f"{func.name}: t2 is filled on XH and on ~XH (complementary)",
                   f"{func.name}: t2 masked stores use {ms}")
-    # dispatch
-    first_if = [st for st in ccd.body if isinstance(st, ast.If)][0]
-    fd_methods = {c.value for c in ast.walk(first_if.test) if isinstance(c, ast.Constant) and isinstance(c.value, str)}
-    delegates = any(callee_attr(c) == "core_core_der_fd" for c in calls_in(first_if))
-    e_methods = {}
-    for iff in ast.walk(pne):
-        if isinstance(iff, ast.If) and "method" in norm(iff.test):
-            e_methods[frozenset(c.value for c in ast.walk(iff.test) if isinstance(c, ast.Constant) and isinstance(c.value, str))] = iff
-    pm6 = [k for k in e_methods if "PM6" in k]
-    ctx.check(delegates and pm6 and fd_methods == set(pm6[0]), "R2", ag, first_if, "core_core_der", first_if.test,
-              f"methods {sorted(fd_methods)} (the PM6-family energy branch) are differentiated by finite differences of pair_nuclear_energy",
-              f"core_core_der delegates {sorted(fd_methods)} to finite differences but the PM6-family energy branch is {sorted(pm6[0]) if pm6 else None}")
+    # dispatch, by value: the methods whose core-core *energy* uses the diatomic (PM6-type) parameters -- found by interpreting pair_nuclear_energy on one symbolic O-O pair per
+    # method and looking for the diatomic x parameter in the result -- must be exactly the methods that core_core_der hands to the finite-difference derivative (three-valued
+    # exploration of its flow graph with the method bound to a value)
+    from .c18 import reach_under
+    from ..cfg import build_cfg as _bcfg
+    import numpy as _np
+    import types as _types
+    from ..npsym import NpSym as _NpSym, Raised as _Raised
+    methods_ = ("MNDO", "AM1", "PM3", "PM6", "PM6_SP", "PM6_SP_STAR")
+    g_ccd = _bcfg(ccd)
+    fd_methods = set()
+    for mth in methods_:
+        seen_, _ = reach_under(g_ccd, {"@values": {"method": mth}})
+        if any(n_.kind == "stmt" and any(callee_attr(c) == "core_core_der_fd" for c in calls_in(n_.stmt)) for n_ in (g_ccd.nodes[i] for i in seen_)):
+            fd_methods.add(mth)
+    e_pm6 = set()
+    sym_ = lambda t, n: _np.array([sp.Symbol(f"{t}{k}", positive=True) for k in range(n)], dtype=object)
+    chi_ = _np.array([[sp.Symbol(f"x_{a_}_{b_}") for b_ in range(10)] for a_ in range(10)], dtype=object)
+    alp_ = _np.array([[sp.Symbol(f"al_{a_}_{b_}") for b_ in range(10)] for a_ in range(10)], dtype=object)
+    KLM_ = tuple(_np.array([[sp.Symbol(f"{t}{a_}_{g_}") for g_ in range(4)] for a_ in range(2)], dtype=object) for t in "KLM")
+    for mth in methods_:
+        const_ = _types.SimpleNamespace(atomic_num=_np.array([sp.Integer(z) for z in range(10)], dtype=object), tore=sym_("Z", 10))
+        pars_ = (sym_("alpha", 2),) if mth == "MNDO" else (sym_("alpha", 2),) + tuple(k_[:, :(2 if mth == "PM3" else 4)] for k_ in KLM_)
+        try:
+            E_ = _NpSym(repo).call_function(en, pne, [None, const_, 1, _np.array([8]), _np.array([8]), _np.array([0]), _np.array([1]), sym_("r", 1), sym_("ra", 1), sym_("rb", 1), alp_, chi_],
+                                            {"gam": sym_("gam", 1), "method": mth, "parameters": pars_})
+        except _Raised:
+            continue
+        if chi_[8, 8] in sp.sympify(_np.asarray(E_).reshape(-1)[0]).free_symbols:
+            e_pm6.add(mth)
+    ctx.check(bool(fd_methods) and fd_methods == e_pm6, "R2", ag, ccd, "core_core_der", "method dispatch",
+              f"methods {sorted(fd_methods)} (those whose core-core energy uses the diatomic parameters) are differentiated by finite differences of pair_nuclear_energy",
+              f"core_core_der delegates {sorted(fd_methods)} to finite differences but the core-core energy uses the diatomic (PM6-type) form for {sorted(e_pm6)}: for the other "
+              f"methods the analytical derivative differentiates another function than the energy evaluates")
     fd = ag.func("core_core_der_fd")
     ctx.check(any(callee_attr(c) == "pair_nuclear_energy" for c in calls_in(fd)), "R2", ag, fd, "core_core_der_fd", fd.name,
               "finite-difference core-core derivative differences pair_nuclear_energy itself", "core_core_der_fd no longer calls pair_nuclear_energy")
@@ -357,6 +379,7 @@ def run(ctx):
         envD = {"mol.rij": r / a0s, "rij": r / a0s, "a0": a0s, "gam": gam, "parameters": par, "mol.xij": X / r, "xij": X / r, "const.tore": sp.Symbol("tore"),
                 "w_x": sp.Symbol("w_x")}
         sd = SymExec(envD, {"XH": xh}, {"method": method}, dict(idx, **{"parameters[0]": sp.Symbol("alpha"), "w_x[:, :, 0, 0]": dG}), funcs)
+        first_if = next((s_ for s_ in ccd.body if isinstance(s_, ast.If) and any(callee_attr(c_) == "core_core_der_fd" for c_ in calls_in(s_))), None)
         body = [s for s in ccd.body if s is not first_if]
         # local aliases (ni = mol.ni ...) are bookkeeping; pre-bind the ones that matter
         sd.env.update({"alpha": sp.Symbol("alpha"), "tore": sp.Symbol("tore")})
